@@ -61,6 +61,13 @@ PROFILES = {
                 distributions=['ALL_INSTANCES', 'ALL_INSTANCES', 'SINGLE_INSTANCE', 'SINGLE_NODE'],
                 child_kinds=SIMPLE_CHILDREN, p_numprocs=0.2, supvisors_failure_strategies=['CONTINUE'],
                 p_ident_rule=0.7),
+    'C05': dict(BASE, max_faults=3, min_faults=0, ops={'supervisor.startProcess': 5, 'supervisor.stopProcess': 1},
+                min_ops=2, max_ops=8, fault_weights={'crash': 1, 'restart': 1, 'partition': 3, 'child_exit': 1},
+                p_auto_fence=0.1, child_kinds={'ok': 0.85, 'ignore_stop': 0.05, 'slow_stop': 0.1}, p_managed=0.8,
+                running_failure=['CONTINUE', 'RESTART_PROCESS', 'STOP_APPLICATION', 'RESTART_APPLICATION'],
+                n_inst=[2, 3, 3, 4], n_groups=[1, 2, 3], n_programs=[1, 2, 3], p_autostart=0.15,
+                supvisors_failure_strategies=['CONTINUE'], p_absent=0.05, p_disabled=0.0, p_trigger_op=0.3,
+                p_heal=0.9, p_final_heal=1.0),
     'C02': dict(BASE, max_faults=5, ops='fsm'),
     'C16': dict(BASE, max_faults=5, ops='all', p_absent=0.3, p_shared_node=0.5),
 }
@@ -92,6 +99,9 @@ def observers_for(prop, scen):
     elif prop in ('C03', 'C04', 'C14'):
         from oracles import starts
         obs.append(starts.StartRequests(app_plans_only=(prop == 'C03')))
+    elif prop == 'C05':
+        from oracles import conciliation
+        obs.append(conciliation.Conciliation())
     elif prop == 'C12':
         from oracles import agreement
         obs.append(agreement.Agreement())
